@@ -146,7 +146,7 @@ CHECKS += [
 
 CHECKS += [
     dict(property_id="C04", category="exploration",
-         text="Histories in the cluster simulation (2-5 HA hosts, optional cascade replica, configured count 1-3, both adjustment orders): transitions made of replica crashes, returns, SQL errors, operator STOP REPLICA, errant transactions, download lag, a 'swap' (one member leaves while another host joins) and time jumps, each followed by iterations of every process. The manager's iteration runs clean, or the manager is killed at its k-th external call (SQL statement or ZooKeeper write), or its k-th statement fails, or the master's mysqld dies at its k-th call (k drawn over the calls a clean iteration makes). Invariants (a) and (b) are evaluated on ground truth before and after every manager iteration and replayed over every single change inside it, which names the change that turned the invariant false (finding signature). Also judged: list content after complete clean iterations (cascade, marked, diverged, dead or broken beyond the delay) and that no write of the list made after the master died drops a member. A second unit (TestVerifC04Enumerate) places the fault at EVERY call boundary of the iteration that performs each of six membership transitions (join, death beyond the delay, broken replication, divergence, join with download lag, swap) for both orders and two shapes (quick: 540 cells, thorough: 5040 cells, each visited once). Five root causes found on the unchanged tree are recorded as known findings (DESIGN.md).",
+         text="Histories in the cluster simulation (2-5 HA hosts, optional cascade replica, configured count 1-3, both adjustment orders): transitions made of replica crashes, returns, SQL errors, operator STOP REPLICA, errant transactions, download lag, a 'swap' (one member leaves while another host joins) and time jumps, each followed by iterations of every process. The manager's iteration runs clean, or the manager is killed at its k-th external call (SQL statement or ZooKeeper write), or its k-th statement fails, or the master's mysqld dies at its k-th call (k drawn over the calls a clean iteration makes). Invariants (a) and (b) are evaluated on ground truth before and after every manager iteration and replayed over every single change inside it, which names the change that turned the invariant false (finding signature). Also judged: list content after complete clean iterations (cascade, marked, diverged, dead or broken beyond the delay) and that no write of the list made after the master died drops a member. A second unit (TestVerifC04Enumerate) places the fault at EVERY call boundary of the iteration that performs each of six membership transitions (join, death beyond the delay, broken replication, divergence, join with download lag, swap) for both orders and two shapes (quick: 540 cells, thorough: 5040 cells, each visited once). Seven root causes found on the unchanged tree are recorded as known findings (DESIGN.md).",
          design_ref="DESIGN.md section 4, C04",
          note="Trusted: ground truth = fake servers' variables and the coordination tree; (b) is not evaluated while the master's mysqld is down; the delay clauses are measured from the end of the first complete iteration in which the same manager process saw the failure. Failing ZooKeeper calls are covered by the kill mode (cut before/after the write), not as returned errors.",
          technique="stateful property-based testing with fault injection at generated call boundaries over the cluster simulation; state invariants checked before/after each iteration with change-by-change replay to name the destroying operation"),
